@@ -109,6 +109,8 @@ pub trait Prob<T: Sc>: Send + Sync {
     /// into_sequential, then everything a FitResult exposes
     fn finish(self: Box<Self>) -> Finish<T>;
     fn into_seq(self: Box<Self>) -> Box<dyn Prob<T>>;
+    /// LevMarProblem::into_parallel (which at this commit yields a sequential problem type)
+    fn into_par(self: Box<Self>) -> Box<dyn Prob<T>>;
     fn fit(self: Box<Self>, cfg: &LmCfg) -> FitOut<T>;
     /// only for single right hand side problems; None otherwise
     fn fit_stats(self: Box<Self>, cfg: &LmCfg, ps: &[f64], bad_ps: &[f64]) -> Option<StatsOut<T>>;
@@ -238,6 +240,9 @@ macro_rules! impl_prob {
             }
             fn into_seq(self: Box<Self>) -> Box<dyn Prob<T>> {
                 Box::new((*self).into_sequential())
+            }
+            fn into_par(self: Box<Self>) -> Box<dyn Prob<T>> {
+                Box::new((*self).into_parallel())
             }
             fn fit(self: Box<Self>, cfg: &LmCfg) -> FitOut<T> {
                 let solver = if cfg.is_default() {
